@@ -230,7 +230,9 @@ Definition parse_datetimespec (c : clock) (sp : spec) : result stamp :=
   | SToday => Ok (mkStamp (today c * DAYUS) (Some 0))
   | SStamp s => Ok (match off s with None => mkStamp (wall s) (Some 0) | Some _ => s end)
   | SDate d => Ok (mkStamp (d * DAYUS) (Some 0))
-  | SRel _ _ _ _ _ _ _ => Err (Internal "ParserError")   (* dateutil: Unknown string format *)
+  | SRel y mo w d h mi s =>                        (* Faker's syntax, relative to the clock reading:
+                                                      now + timedelta(seconds=_parse_timedelta(d)) *)
+    Ok (mkStamp (now_us c + rel_seconds y mo w d h mi s * US) (Some 0))
   | SBad => Err (Internal "ParserError")
   end.
 
@@ -268,10 +270,12 @@ Definition clamp (rc lo hi : Z) (tz : option Z) : Z * option Z :=
 (* template_funcs.py:180-194; tz = offset (seconds) of the result's presentation zone,
    None for timezone: False (naive UTC result; the bounds are compared as naive UTC readings,
    i.e. still as instants).  Result: (instant in microseconds, presentation offset). *)
-Definition datetime_between (c : clock) (s e : spec) (tz : option Z) (d : option Z) (den : Z)
+(* The clock is read once per bound (now / today / relative specs): cs is the reading used for
+   the start bound, ce the later one used for the end bound. *)
+Definition datetime_between (cs ce : clock) (s e : spec) (tz : option Z) (d : option Z) (den : Z)
   : result (Z * option Z) :=
-  do s' <- datetime_fn c s;
-  do e' <- datetime_fn c e;
+  do s' <- datetime_fn cs s;
+  do e' <- datetime_fn ce e;
   if instant e' <? instant s' then Err (DGE "End date is before start date")
   else draw_below d den (fun num =>
          let rc := faker_dt_between (floor_sec (instant s')) (floor_sec (instant e')) num den in
@@ -285,7 +289,7 @@ Inductive fn :=
 | FNumber (mn mx step : Z)
 | FChoice (a : rc_args)
 | FDate (c : clock) (s e : spec)
-| FDateTime (c : clock) (s e : spec) (tz : option Z).
+| FDateTime (cs ce : clock) (s e : spec) (tz : option Z).
 
 Definition run_fn (f : fn) (d : option Z) (den : Z) : result value :=
   match f with
@@ -294,8 +298,8 @@ Definition run_fn (f : fn) (d : option Z) (den : Z) : result value :=
   | FDate c s e =>
     do v <- date_between c s e d den;
     Ok (match v with Some day => VZ day | None => VNull end)
-  | FDateTime c s e tz =>
-    do '(us, o) <- datetime_between c s e tz d den; Ok (VDT us o)
+  | FDateTime cs ce s e tz =>
+    do '(us, o) <- datetime_between cs ce s e tz d den; Ok (VDT us o)
   end.
 
 (* the recipe interpreter turns every exception of a template function into a DataGenError *)
@@ -341,8 +345,8 @@ Definition possible (f : fn) (v : value) : bool :=
       end
     | _, _ => false
     end
-  | FDateTime c s e tz, VDT us o =>
-    match datetime_fn c s, datetime_fn c e with
+  | FDateTime cs ce s e tz, VDT us o =>
+    match datetime_fn cs s, datetime_fn ce e with
     | Ok s', Ok e' =>
       (instant s' <=? us) && (us <=? instant e') &&
       (option_eqb Z.eqb o tz ||
